@@ -69,8 +69,7 @@ func c12Faults(c c12Case) []c12Fault {
 		if t.Text == "" {
 			continue
 		}
-		switch t.Kind {
-		case "str", "tpl":
+		if strings.HasPrefix(t.Kind, "str") || strings.HasPrefix(t.Kind, "tpl") { // also "str stmt": a literal that begins a statement
 			for o := t.Off + 1; o < t.Off+len(t.Text); o++ {
 				if o > t.Off+6 && o < t.Off+len(t.Text)-2 {
 					continue // long literals: first and last interior offsets only
